@@ -114,6 +114,9 @@ type Client struct {
 	cfg                  *ClientConfig
 	registeredTopics     map[string]uint16
 	registeredTopicsLock sync.RWMutex
+	// pingLock serializes the start of PINGREQ exchanges and guards
+	// pingTransaction.keepalive.
+	pingLock sync.Mutex
 	messageHandlers      *messageHandlers
 	transactions         *transactions.TransactionStore // exchanges started by the client
 	brokerTransactions   *transactions.TransactionStore // exchanges started by the gateway (its own MessageIDs)
@@ -521,14 +524,30 @@ func (c *Client) Ping() error {
 }
 
 func (c *Client) ping(keepalive bool) error {
-	transaction := newPingTransaction(c)
-	transaction.keepalive = keepalive
+	// There is one PINGREQ exchange at a time (a PINGRESP does not say which
+	// PINGREQ it answers): a ping requested while another one is waiting for
+	// its PINGRESP - the keep-alive ping and Ping() can meet - sends its
+	// PINGREQ and joins that exchange.
+	c.pingLock.Lock()
+	var transaction *pingTransaction
+	if transactionx, ok := c.transactions.GetByType(pkts.PINGREQ); ok {
+		transaction, _ = transactionx.(*pingTransaction)
+	}
 	ping := pkts1.NewPingreq(nil)
-	c.transactions.StoreByType(pkts.PINGREQ, transaction)
-	transaction.Proceed(nil, ping)
+	if transaction == nil {
+		transaction = newPingTransaction(c)
+		transaction.keepalive = keepalive
+		c.transactions.StoreByType(pkts.PINGREQ, transaction)
+		transaction.Proceed(nil, ping)
+	} else if !keepalive {
+		// The application waits for the exchange now: it must not be
+		// stopped together with the keep-alive.
+		transaction.keepalive = false
+	}
 	if err := c.send(ping); err != nil {
 		transaction.Fail(err)
 	}
+	c.pingLock.Unlock()
 	select {
 	case <-transaction.Done():
 		return transaction.Err()
